@@ -450,9 +450,9 @@ def parsePublicKey (b : Bytes) : Option (DsaPub × Bytes) :=
           | some (y, r4) => some (⟨p, q, g, y⟩, r4)
   | _ => none
 
-/-- encrypt(key, data) of keys.go: AES-CTR with a zero IV; `dst[:aes.BlockSize]` needs cap(dst) ≥ 16 -/
+/-- encrypt(key, data) of keys.go: AES-CTR with a zero IV (repaired code: the IV is its own buffer;
+    before, `dst[:aes.BlockSize]` panicked for data shorter than one block) -/
 def akeEncrypt (K : Crypto) (key data : Bytes) : M Bytes := do
-  if data.length < 16 then goPanic "encrypt: dst[:aes.BlockSize]"
   match K.ctr key (List.replicate 16 0) data with
   | some d => return d
   | none => return List.replicate data.length 0
